@@ -230,6 +230,30 @@ Definition hop (t : transport) (a : auth) (items : N) (o : outcome) : hop_result
   end.
 
 (* ------------------------------------------------------------------------------------------
+   A hop relative to the receiver's Shutdown (receiver/otlpreceiver/otlp.go Shutdown):
+   serverHTTP.Shutdown(ctx) and serverGRPC.GracefulStop() both stop accepting NEW connections and
+   then WAIT for the requests already being handled, whose responses are still delivered.
+   - Running: no shutdown involved;
+   - InFlightAtShutdown: the export is inside the next consumer when Shutdown starts; the consumer
+     answers afterwards.  The request is drained: same result as Running;
+   - AfterShutdown: the export is sent after Shutdown returned: the connection is refused, nothing
+     reaches the consumer; the gRPC client reports Unavailable (processError: retryable), the HTTP
+     exporter's client.Do fails ("failed to make an HTTP request", an error that is neither permanent
+     nor a throttle: retryable, no gRPC status attached).
+   ------------------------------------------------------------------------------------------ *)
+Inductive phase := Running | InFlightAtShutdown | AfterShutdown.
+
+Definition hop_at (ph : phase) (t : transport) (a : auth) (items : N) (o : outcome) : hop_result :=
+  match ph with
+  | AfterShutdown =>
+      match t with
+      | Grpc => mkHop false (process_error (Some (codes_Unavailable, None))) (Some codes_Unavailable)
+      | _ => mkHop false Retryable None
+      end
+  | _ => hop t a items o
+  end.
+
+(* ------------------------------------------------------------------------------------------
    Payload transport: the codec (C08) and the compression (C16) are other properties; here they
    are the section's functions, and the delivery theorem states what it needs of them.
    ------------------------------------------------------------------------------------------ *)
